@@ -14,13 +14,13 @@ META = {
         "Pyoda.C16.weeks_span", "Pyoda.C16.weekYear_contains", "Pyoda.C16.weekYear_adjacent",
         "Pyoda.C16.week_le_weeksInYear", "Pyoda.C16.weekDate_roundtrip", "Pyoda.C16.localDate_roundtrip", "Pyoda.C16.weeks_advance",
         "Pyoda.C16.next_spec", "Pyoda.C16.previous_spec", "Pyoda.C16.nextOrSame_spec", "Pyoda.C16.previousOrSame_spec",
-        "Pyoda.C16.nthWeekday_spec",
+        "Pyoda.C16.nthWeekday_spec", "Pyoda.C16.pyIsoWeek1Monday_eq", "Pyoda.C16.iso_rule_matches_isocalendar", "Pyoda.C16.iso_matches_isocalendar_gregorian",
     ],
     "trusted_base": [
         "the calendar enters the theorems as an arbitrary year table with start(y+1) = start(y) + len(y), len(y) >= 7 (C01 establishes this for every calendar); the harness reads the table entries from the code per op",
-        "ISO rule versus the standard library's isocalendar is decided by correspondence/oracle against CPython, not by a theorem",
+        "ISO rule = isocalendar: iso_matches_isocalendar_gregorian is about the Lean transcription of Lib/_pydatetime.isocalendar, which is tied to the real CPython by the correspondence op wy.pyiso (and the oracle compares the code with date.isocalendar() directly)",
     ],
-    "partial": ["irregular (BCL-style) rules: correspondence and oracle only, the theorems are stated for regular rules", "isocalendar agreement: oracle against CPython (exhaustive over years 1-9999 in the thorough tier)"],
+    "partial": ["irregular (BCL-style) rules: correspondence and oracle only, the theorems are stated for regular rules"],
     "rule": "dates within 8 days of every sampled year boundary and at calendar range ends, all 71 rules, all calendars; distinct = distinct op; non-trivial = every op",
 }
 
@@ -124,6 +124,9 @@ def impl(t):
         if op == "wy.of":
             d = Pm.LocalDate._ctor(days_since_epoch=a[1], calendar=c)
             return ints(r.get_week_year(d), r.get_week_of_week_year(d), int(d.day_of_week))
+        if op == "wy.pyiso":
+            iso = datetime.date.fromordinal(a[1] + 719163).isocalendar()
+            return ints(iso[0], iso[1], iso[2])
         if op == "wy.weeks":
             return str(r.get_weeks_in_week_year(a[0], c))
         if op == "wy.date":
@@ -274,6 +277,10 @@ def gen(ctx):
                     line = f"wy.of {pre} {cy} {d}"
                     SIDE[line] = (cid, rule)
                     ops.append(line)
+                    if cid == "ISO" and rule == (4, 1, 0) and 2 <= cy <= 9998:
+                        line = f"wy.pyiso {pre} {cy} {d}"
+                        SIDE[line] = (cid, rule)
+                        ops.append(line)
                 for wy in (y,):
                     pre = ctx_tokens(cid, rule, [wy, wy + 1, mn, mx + 1] if (wy <= mn or wy + 1 >= mx) else [wy, wy + 1])
                     if pre is None:
